@@ -39,6 +39,10 @@ where
 
     callables: HandleTable<Procedure<Aux>>,
     _m: std::marker::PhantomData<&'a ()>,
+
+    /// verification hook: number of instructions dispatched since the harness last reset it
+    #[cfg(feature = "verif-hooks")]
+    pub verif_instr_executed: u64,
 }
 
 pub fn get_table(value: &Value) -> Result<&CaoLangTable, ExecutionErrorPayload> {
@@ -83,6 +87,8 @@ impl<Aux> Vm<'_, Aux> {
             max_instr: 1000,
             remaining_iters: 0,
             _m: Default::default(),
+            #[cfg(feature = "verif-hooks")]
+            verif_instr_executed: 0,
         };
         vm.register_native_stdlib().unwrap();
         Ok(vm)
@@ -367,6 +373,10 @@ impl<Aux> Vm<'_, Aux> {
                 ));
             }
             self.remaining_iters -= 1;
+            #[cfg(feature = "verif-hooks")]
+            {
+                self.verif_instr_executed += 1;
+            }
             let instr: u8 = unsafe { *bytecode_ptr.add(*instr_ptr) };
             let instr: Instruction = unsafe { transmute(instr) };
             let src_ptr = *instr_ptr;
